@@ -4,6 +4,7 @@ monitor: output-stream oracle on the bytes the real TCPRequestHandler hands to a
 byte streams x segmentations; differential oracle across segmentations and against single-line runs."""
 import contextlib
 import io
+import time
 import itertools
 import json
 import random
@@ -55,10 +56,17 @@ class FakeSock:
     def settimeout(self, t):
         pass
 
+    dead = False       # the peer has reset the connection: every further write fails
+    hold = None        # threading.Event: recv blocks on it when it meets the chunk 'HOLD' (the connection stays open)
+
     def recv(self, n):
         if not self.chunks:
             return b''
         c = self.chunks[0]
+        if c == 'HOLD':
+            self.chunks.pop(0)
+            self.hold.wait(10)
+            raise _socket.timeout()
         if c is None:
             self.chunks.pop(0)
             raise _socket.timeout()
@@ -77,6 +85,8 @@ class FakeSock:
 
     def _fault(self, b):
         self.nwrite += 1
+        if self.dead:
+            raise BrokenPipeError(32, 'Broken pipe')
         if self.fail_at is not None and self.nwrite - 1 == self.fail_at:
             self.out.append(bytes(b[:int(len(b) * self.fail_part)]))
             raise _socket.timeout('timed out')
@@ -182,6 +192,67 @@ class World:
         self.r.count('runs')
         errs = [x for x in self.server.log.records if x[0] in ('error', 'exception', 'critical')]
         return b''.join(fs.out), errs, fs.chunks
+
+    # ---------------------------------------------------------------- a peer that is gone, not yet noticed
+    def run_dead_peer(self, rng):
+        """an activated connection whose peer has reset it, before its handler has noticed: an update announced by a driver
+        thread in that window must reach every other activated connection, and the announcing thread must not get an
+        exception out of it (the dead connection is one of the listeners the dispatcher sends to)"""
+        import threading
+        from vlib import nodes
+        r = self.r
+        self.restore()
+        del self.server.log.records[:]
+        disp = self.server.dispatcher
+        others = [nodes.Conn(f'other{i}') for i in range(rng.choice([1, 2, 4]))]
+        for o in others:
+            disp.add_connection(o)
+            disp.handle_request(o, ('activate', None, None))
+            del o.out[:]
+        fs = FakeSock([b'activate\n', 'HOLD'])
+        fs.hold = threading.Event()
+        buf = io.StringIO()
+
+        def serve():
+            with contextlib.redirect_stdout(buf):
+                self.Handler(fs, ('127.0.0.1', 8), self.server)
+        t = threading.Thread(target=serve, daemon=True)
+        t.start()
+        ok = False
+        for _ in range(400):
+            if b'active\n' in b''.join(fs.out):
+                ok = True
+                break
+            time.sleep(0.005)
+        case = {'sub': 'dead-peer', 'others': len(others)}
+        r.count('dead_peer_runs')
+        r.case(('dead-peer', len(others)), True)
+        problem = None
+        try:
+            if not ok:
+                r.inconclusive.append('dead-peer phase: the activation of the TCP connection did not complete')
+                return
+            fs.dead = True
+            mod = self.node.secnode.modules['d']
+            value = float(rng.randint(2, 900))
+            try:
+                mod.announceUpdate('value', value)
+            except BaseException as e:
+                problem = ('C07/update-to-a-dead-connection-raises-in-the-announcing-thread', f'{type(e).__name__}: {e}')
+            if problem is None:
+                missed = [o.name for o in others if not any(m[0] == 'update' and m[1] == 'd:value' and m[2][0] == value for m in o.out)]
+                if missed:
+                    problem = ('C07/update-not-delivered-beside-a-dead-connection', f'{missed} did not get the update of d:value = {value}')
+        finally:
+            fs.hold.set()
+            t.join(5)
+            for o in others:
+                disp.remove_connection(o)
+        if t.is_alive():
+            r.violation('C07/handler-does-not-end-after-its-peer-is-gone', 'the handler thread is still alive 5 s after its socket failed and closed', case)
+            return
+        if problem:
+            r.violation(problem[0], problem[1][:300], case)
 
     # ---------------------------------------------------------------- the peer stops reading
     def run_send_timeout(self, rng):
@@ -576,6 +647,8 @@ def run_shard(shard):
         w.run_concurrent_send(rng)
     for _ in range(30 if shard.get('tier') == 'quick' else 1500):
         w.run_send_timeout(rng)
+    for _ in range(4 if shard.get('tier') == 'quick' else 100):
+        w.run_dead_peer(rng)
     w.run_codec(rng, 2000)
     return r.result()
 
